@@ -482,7 +482,7 @@ class Gen:
         self.add({'kind': 'bitfield', 'name': self.name('S'), 'base': 64, 'debug': True, 'fields': fields}, 'F8', 'accept',
                  ['hygiene', 'field-names'])
         # field names that look like accessor names: the getter of `set_point` is `set_point()`, its setters `with_set_point` / `set_set_point`
-        names2 = ['set_point', 'with_level', 'set_', 'with_', 'get_x', 'is_set', 'new_value', 'build_id', 'partial', 'default_value', 'zero',
+        names2 = ['_reserved1', '_scratch', '_pad', '__x', 'set_point', 'with_level', 'set_', 'with_', 'get_x', 'is_set', 'new_value', 'build_id', 'partial', 'default_value', 'zero',
                   'set_set', 'with_with', 'raw', 'value_raw', 'unset', 'setup', 'within']
         for accs in (['rw', 'r', 'rw'], ['r', 'rw', 'w']):
             fields = [F(nm, {'k': 'bool'} if k % 3 == 0 else u(2), [('s', 3 * k)] if k % 3 == 0 else [('r', 3 * k, 3 * k + 1)],
@@ -507,6 +507,15 @@ class Gen:
                             {'form': 'const', 'name': 'RESET_%d' % k, 'value': v}
                         self.add(d, 'F8', 'accept', ['option-combination', form, 'debug-first' if rev else 'default-first',
                                                      'legacy' if legacy else 'eq'])
+        # nothing writable, with a default: builder().build() is still offered (and is the default); also a field-less struct
+        for W in (8, 24):
+            self.add({'kind': 'bitfield', 'name': self.name('S'), 'base': W, 'default': {'form': 'lit', 'value': 0xA5},
+                      'fields': [F('code', u(4), [('r', 0, 3)], acc='r'), F('busy', {'k': 'bool'}, [('s', 4)], acc='r'),
+                                 F('level', u(3), [('r', 5, 7)], acc='r')]}, 'F8', 'accept', ['all-read-only-with-default'])
+            self.add({'kind': 'bitfield', 'name': self.name('S'), 'base': W, 'default': {'form': 'lit', 'value': 0x5A}, 'fields': []},
+                     'F8', 'accept', ['no-fields-with-default'])
+            self.add({'kind': 'bitfield', 'name': self.name('S'), 'base': W, 'fields': [F('code', u(4), [('r', 0, 3)], acc='')]},
+                     'F8', 'accept', ['no-accessible-field'])
         # `#[doc(hidden)]` and `#[doc = ..]` are doc attributes like any other: passed through, and the field still shows in Debug
         self.add({'kind': 'bitfield', 'name': self.name('S'), 'base': 16, 'doc': True, 'debug': True,
                   'fields': [dict(F('a', u(8), [('r', 0, 7)]), doc=True, doc_text='#[doc(hidden)]'),
@@ -653,6 +662,22 @@ class Gen:
         d = mk(3, None, [0, 1])
         d['variants'].append({'name': 'Expr', 'discr': None, 'discr_text': '1 + 1'})
         self.add(d, 'F7e', 'reject', ['non-literal-discriminant'])
+        # a discriminant that arrives through a macro_rules! expr fragment is not a literal token for the macro: rejected,
+        # whether the argument is a literal, an out-of-range literal or a named constant
+        for arg in ('1', '9', 'TWO_%d'):
+            d = mk(1, 'true', [0])
+            d['repr'] = 'u8'
+            d['variants'].append({'name': 'ViaMacro', 'discr': None, 'discr_text': '$v'})
+            d['macro_arg'] = arg % len(self.decls) if '%' in arg else arg
+            if '%' in arg:
+                d['pre'] = ['pub const %s: u8 = 2;' % d['macro_arg']]
+            self.add(d, 'F7e', 'reject', ['discriminant-through-macro_rules', arg])
+        # an explicit #[repr(uX)] does not widen the range of discriminants: they must still be below 2^N
+        for n, rp, hi, ok in ((4, 'u8', 15, True), (4, 'u8', 16, False), (1, 'u8', 2, False), (9, 'u16', 511, True), (9, 'u16', 512, False),
+                              (7, 'u8', 128, False), (12, 'u16', 4096, False), (12, 'u16', 4095, True)):
+            d = mk(n, None, [0, hi])
+            d['repr'] = rp
+            self.add(d, 'F7e', 'accept' if ok else 'reject', ['explicit-repr', 'u%d' % n, rp, 'max=%d' % hi])
         d = mk(3, None, [0, 1])
         d['variants'].append({'name': 'Neg', 'discr': None, 'discr_text': '-1'})
         self.add(d, 'F7e', 'reject', ['negative-discriminant'])
@@ -674,7 +699,8 @@ class Gen:
             self.add(d, 'F7', expect, [tag])
 
         def fld(ty, entries, **kw):
-            return self.field('x', ty, entries, acc=kw.pop('acc', 'rw'), **kw)
+            # the access specifier has no bearing on validity: vary it (r, w, rw, none)
+            return self.field('x', ty, entries, acc=kw.pop('acc', self.rng_order.choice(['rw', 'rw', 'r', 'w', ''])), **kw)
         bases = [8, 16, 32, 64, 128, 9, 12, 24, 33, 63, 100]
         for k in range(count):
             W = bases[k % len(bases)]
@@ -759,8 +785,15 @@ class Gen:
                 if lo + n < W:
                     w2 = dict(t)
                     w2['decl_n'] = n
-                    f = fld(w2, [('r', lo, lo + n)])
+                    # with at least one accessor: a field without any generates no code, its type is never used, and a type of
+                    # the wrong width can be neither observed nor rejected there
+                    f = fld(w2, [('r', lo, lo + n)], acc=self.rng_order.choice(['rw', 'r', 'w']))
                     one(W, f, 'reject', 'custom-wrong-width')
+                    if lo + n + 1 < W and n + 1 <= 8:
+                        # the type one bit WIDER than the field, write-only: the setter would spill into the next bit (defect D5)
+                        t2 = dict(self.custom_enum(n + 1))
+                        t2['decl_n'] = n + 1
+                        one(W, fld(t2, [('r', lo, lo + n - 1)] if n > 1 else [('s', lo)], acc='w'), 'reject', 'custom-wider-than-field-write-only')
         # malformed attribute token streams (expected verdict by fiat; no structured form)
         for text, tag in [('#[bits(0..=3, rx)]', 'unknown-ident'), ('#[bits(0..3, rw)]', 'exclusive-range'),
                           ('#[bits(0..=, rw)]', 'missing-upper'), ('#[bits(..=3, rw)]', 'missing-lower'),
@@ -969,6 +1002,7 @@ class Gen:
                       F('t', u(c), [('r', 128 - c, 127)] if c > 1 else [('s', 127)])]
             if c <= 127:
                 fields.append(F('p', {'k': 'bool'}, [('s', c)]))
+                fields.append(F('pr', {'k': 'bool'}, [('r', c, c)]))       # a bool written as a one-bit range
             if c + 8 <= 128:
                 fields.append(F('q', u(8), [('r', c, c + 7)]))
                 fields.append(F('qi', {'k': 'i', 'n': 8}, [('r', c, c + 7)]))
